@@ -40,8 +40,8 @@ LATITUDE (every use is counted in a ``lat_*`` counter):
     (``lat_delete_inferiors_refused``) or OK, the name then becomes a
     placeholder and the inferiors stay (``lat_delete_inferiors_noselect``).
  3. LSUB may keep a subscribed name after the mailbox was deleted/renamed
-    away (``lat_lsub_keeps_missing``) or drop it while it does not exist
-    (``lat_lsub_drops_missing``); LSUB may list ancestors of subscribed names
+    away (``lat_lsub_keeps_missing``): it must, a subscription ends with
+    UNSUBSCRIBE only; LSUB may list ancestors of subscribed names
     flagged ``\\Noselect`` (``lat_lsub_parent``, RFC 3501 6.3.9); a
     subscription may follow a RENAME (``lat_sub_follows_rename``).  A name
     that is not subscribed must never be in LSUB.
@@ -449,7 +449,12 @@ class Names:
         if subscribed:
             for n in self.subs:
                 if glob_match(full, n):
-                    (must if n in self.real else may).add(n)
+                    # subscribed is subscribed, whether or not a mailbox by
+                    # that name exists (RFC 3501 6.3.6: the server MUST NOT
+                    # unilaterally remove an existing mailbox name from the
+                    # subscription list even if a mailbox by that name no
+                    # longer exists)
+                    must.add(n)
                 elif first_is_inbox(n) and glob_match(full, n, 5):
                     may.add(n)
                 for a in ancestors(n):
@@ -917,7 +922,8 @@ class Runner:
                 if n not in m.real:
                     ctx.count('lat_lsub_keeps_missing')
                 continue
-            if n in m.sub_follow and m.sub_follow[n] in m.subs:
+            if n in m.sub_follow and m.sub_follow[n] in m.subs \
+                    and b'\\Noselect' not in attrs:
                 ctx.count('lat_sub_follows_rename')
                 m.subs.discard(m.sub_follow[n])
                 m.subs.add(n)
@@ -951,8 +957,19 @@ class Runner:
                                + shape_suffix(n, True),
                                '%r exists and is subscribed but LSUB "" * '
                                'omits it (after %s)' % (n, kind), name=n)
+            elif outcome != 'OK':
+                ctx.report('no-but-state-changed:%s:lsub' % kind,
+                           '%s answered %s but LSUB "" * lost %r'
+                           % (kind, outcome, n), name=n)
             else:
-                ctx.count('lat_lsub_drops_missing')
+                # (a latitude, lat_lsub_drops_missing, until the last day:
+                # the statement says LSUB returns exactly the subscribed
+                # names)
+                ctx.report('lsub-missing-subscribed-name:mailbox-missing'
+                           + shape_suffix(n, True),
+                           '%r is subscribed (no mailbox of that name '
+                           'exists at the moment) but LSUB "" * omits it '
+                           '(after %s)' % (n, kind), name=n)
 
     def alias_suffix(self, n: str) -> str:
         """Structural refinement for a name LSUB reports although it is not
